@@ -152,6 +152,9 @@ def run_certs(ctx, certs):
 
 
 def run(ctx):
+    ctx.assumptions += [
+        "Interval's integral tactic (Coq-Interval) evaluates with primitive floats and integers inside the kernel; the universal accuracy of the approximations is certified at the sampled arguments only",
+    ]
     ctx.check_proofs(extra_files=["StatRun"])
     exe = vlib.compile_harness("harness/stat.cpp", extra_src=["lib/gnu_gama/statan.cpp"])
     rng = ctx.rng
